@@ -239,6 +239,42 @@ def handle (op : String) (j : Json) : Except String Json := do
         ("py_dir", match r.pyDir with
           | .caller d => Json.mkObj [("caller", optJ Json.str d)]
           | .path raw => Json.mkObj [("path", Json.str raw)])])])
+  | "parserfail" =>
+    -- the context parser raised `raised`: {groups, success_group, failure_group, body: [[group, end]…], raised}
+    let optStr (k : String) : Except String (Option String) := do
+      match ← j.getObjVal? k with
+      | .null => pure none
+      | v => pure (some (← v.getStr?))
+    let gs ← optStrsOf j "groups"
+    let su ← optStr "success_group"
+    let fa ← optStr "failure_group"
+    let g : GroupArgs := { groups := gs, success := su, failure := fa }
+    let r ← raisedOf (← j.getObjVal? "raised")
+    let ends ← (← (← j.getObjVal? "body").getArr?).toList.mapM fun e => do
+      match (← e.getArr?).toList with
+      | [.str n, .str k] =>
+        let h ← (match k with
+          | "completed" => pure HandlerEnd.completed | "stopStepGroup" => pure HandlerEnd.stopStepGroup
+          | "stopPipeline" => pure HandlerEnd.stopPipeline | "stop" => pure HandlerEnd.stop
+          | _ => throw s!"unknown handler end {k}" : Except String HandlerEnd)
+        pure (n, h)
+      | _ => throw "bad body entry"
+    let body : String → Option HandlerEnd := fun n => ends.lookup n
+    let out := parserFailure body g r
+    let log ← (match j.getObjVal? "log_level" with | .ok _ => optIntOf j "log_level" | .error _ => pure none)
+    pure ((outcomeJ log (pipelineRun out) (tryMain (pipelineRun out))).setObjVal! "handler" (optJ Json.str (failureHandler g))
+      |>.setObjVal! "ran" (strsJ (ranOnParserFailure body g)) |>.setObjVal! "leaves_run" (Json.str (kindOf out)))
+  | "parsecalls" =>
+    -- a sequence of parser calls / in-place mutations of earlier results in ONE process:
+    -- {ops: [["call", parser, [args]] | ["mutate", i, value]…]} → [result of every call]
+    let ops ← (← (← j.getObjVal? "ops").getArr?).toList.mapM fun e => do
+      match (← e.getArr?).toList with
+      | [.str "call", .str p, a] => pure (POp.call (← parserOf p) (← strsOf a))
+      | [.str "mutate", i, v] => pure (POp.mutate (← i.getNat?) (← Val.ofJson v))
+      | _ => throw "bad parsecalls op"
+    let rs := runPOps loadsImpl parserSrc {} ops
+    let js ← rs.mapM fun r => excResult (optJ Val.toJson) r
+    pure (Json.arr js.toArray)
   | _ => .error s!"unknown op {op}"
 
 end Pypyr.OpCli
